@@ -216,8 +216,8 @@ type genOpts struct {
 // on the first segment is meant (seeded change C02c-swaptype-replaceall rewrote every occurrence of the type name
 // in --remap and was missed with the plain names)
 var accountPool = map[string][]string{
-	"Assets":      {"Assets:Bank", "Assets:Bank:Checking", "Assets:Bank:Savings", "Assets:Portfolio", "Assets:Cash", "Assets:Broker:Acc1", "Assets:Receivables", "Assets:Broker:Acc2:Sub:Leaf", "Assets:FixedAssets:Machinery", "Assets:LiabilitiesPrepaid"},
-	"Liabilities": {"Liabilities:CreditCard", "Liabilities:Mortgage", "Liabilities:Loans:Car", "Liabilities:CurrentLiabilities:Tax"},
+	"Assets":      {"Assets", "Assets:Bank", "Assets:Bank:Checking", "Assets:Bank:Savings", "Assets:Portfolio", "Assets:Cash", "Assets:Broker:Acc1", "Assets:Receivables", "Assets:Broker:Acc2:Sub:Leaf", "Assets:FixedAssets:Machinery", "Assets:LiabilitiesPrepaid"},
+	"Liabilities": {"Liabilities", "Liabilities:CreditCard", "Liabilities:Mortgage", "Liabilities:Loans:Car", "Liabilities:CurrentLiabilities:Tax"},
 	"Equity":      {"Equity:Equity", "Equity:Opening", "Equity:Valuation:Misc", "Equity:OwnersEquity"},
 	"Income":      {"Income:Salary", "Income:Dividends", "Income:Interest:Bank", "Income:Portfolio", "Income:InterestIncome"},
 	"Expenses":    {"Expenses:Rent", "Expenses:Groceries", "Expenses:Fees", "Expenses:Taxes:Federal", "Expenses:Insurance", "Expenses:Taxes:Cantonal:Direct:Y2020", "Expenses:TravelExpenses:Hotel"},
@@ -334,6 +334,8 @@ func genJournal(r *rng, o genOpts) Journal {
 		j = append(j, Dir{Kind: 'O', Date: dateStr(d0.AddDate(0, 0, -early-r.intn(3))), Acc: a})
 	}
 	coms := o.commodities
+	chain3 := false
+	_ = chain3
 	if o.prices {
 		// CHF is the hub; USD, EUR quoted in CHF; others quoted in USD (chain) or CHF
 		for _, c := range coms {
@@ -343,6 +345,13 @@ func genJournal(r *rng, o genOpts) Journal {
 			target := "CHF"
 			if c != "USD" && c != "EUR" && r.chance(60) && contains(coms, "USD") {
 				target = "USD"
+				if r.chance(35) && contains(coms, "EUR") {
+					// a chain of three: c in USD, USD in EUR (below), EUR in CHF
+					chain3 = true
+				}
+			}
+			if c == "USD" && chain3later(coms) && r.chance(35) {
+				target = "EUR"
 			}
 			n := 1 + r.intn(6)
 			base := float64(r.rangeInt(50, 30000)) / 100
@@ -493,6 +502,10 @@ func genJournal(r *rng, o genOpts) Journal {
 	}
 	return j
 }
+
+// chain3later: EUR is among the commodities, so that USD may be quoted in EUR instead of CHF (price chains of three
+// declarations: a security in USD, USD in EUR, EUR in CHF)
+func chain3later(coms []string) bool { return contains(coms, "EUR") }
 
 func contains(xs []string, x string) bool {
 	for _, y := range xs {
